@@ -300,8 +300,7 @@ func genCase(r *vrun.Run, idx int) caseSpec {
 	c.EP = entryPoints[pickWeighted(rng, epWeights)]
 	depth := pickWeighted(rng, []int{5, 15, 25, 30, 25})
 	fan := pickWeighted(rng, []int{5, 10, 20, 30, 35})
-	c.Nodes = treegen.Gen(rng, treegen.Opts{MaxDepth: depth, MaxFanout: fan, MaxEntries: 40, FileProb: 0.45, MaxSize: 48, Name: genName,
-		Content: func(*rand.Rand, int) []byte { return nil }})
+	c.Nodes = genTree(rng, depth, fan)
 	if c.Nodes == nil {
 		c.Nodes = []treegen.Node{}
 	}
@@ -335,6 +334,47 @@ func genCase(r *vrun.Run, idx int) caseSpec {
 		}
 	}
 	return c
+}
+
+// genTree generates a tree of depth ≤ maxDepth (0 = empty tree) in which every directory has 0..maxFan
+// entries (the root 1..maxFan, so that empty trees come only from maxDepth = 0 or maxFan = 0); parents
+// precede their children; entries at the maximum depth are files.
+func genTree(rng *rand.Rand, maxDepth, maxFan int) []treegen.Node {
+	var nodes []treegen.Node
+	var rec func(prefix string, depth int)
+	rec = func(prefix string, depth int) {
+		if depth > maxDepth || maxFan == 0 {
+			return
+		}
+		fan := max(rng.IntN(maxFan+1), rng.IntN(maxFan+1))
+		if depth == 1 {
+			fan = max(fan, 1)
+		}
+		seen := map[string]bool{}
+		for i := 0; i < fan && len(nodes) < 40; i++ {
+			name := genName(rng, depth, i)
+			if seen[name] {
+				continue
+			}
+			seen[name] = true
+			p := name
+			if prefix != "" {
+				p = prefix + "/" + name
+			}
+			if depth == maxDepth || rng.IntN(100) < 45 {
+				size := 0
+				if rng.IntN(5) != 0 {
+					size = rng.IntN(49)
+				}
+				nodes = append(nodes, treegen.Node{Path: p, Kind: "file", Size: size, Mode: 0o644})
+			} else {
+				nodes = append(nodes, treegen.Node{Path: p, Kind: "dir", Mode: 0o755})
+				rec(p, depth+1)
+			}
+		}
+	}
+	rec("", 1)
+	return nodes
 }
 
 // contentFor is a pure function of the path (so that a replayed witness rebuilds the same tree).
@@ -672,6 +712,11 @@ func runCase(r *vrun.Run, c caseSpec, scratch string) {
 	}
 
 	r.ObsSet("entry_points", c.Backend+"/"+c.EP)
+	r.Obs("tree_entries_total", int64(len(c.Nodes)))
+	r.ObsMax("tree_entries_max", int64(len(c.Nodes)))
+	if len(c.Nodes) == 0 {
+		r.Obs("empty_trees", 1)
+	}
 
 	if ctx.Err() != nil {
 		r.Inconclusive("watchdog: the operation did not finish within 120 s")
@@ -1063,6 +1108,7 @@ func main() {
 			r.Fatalf("replay: %v", err)
 		}
 		runCase(r, wit.Case, scratch)
+		os.RemoveAll(scratch)
 		r.Finish()
 	}
 	n := r.Pick(3300, 132000)
@@ -1076,15 +1122,15 @@ func main() {
 	r.Require("entry_points", int64(2*len(entryPoints)))
 	r.Require("invalid_pattern_entry_points", int64(2*len(entryPoints)))
 	r.Require("invalid_pattern_cases", 250*q)
-	r.Require("protected_entries_judged", 3000*q)
-	r.Require("must_process_entries_judged", 8000*q)
-	r.Require("full_name_hits_nested", 800*q)
-	r.Require("entries_beneath_a_protected_directory", 500*q)
+	r.Require("protected_entries_judged", 2000*q)
+	r.Require("must_process_entries_judged", 5000*q)
+	r.Require("full_name_hits_nested", 600*q)
+	r.Require("entries_beneath_a_protected_directory", 800*q)
 	r.Require("depths_with_full_name_hits", 4)
-	r.Require("cases_with_both_sides_judged", 600*q)
+	r.Require("cases_with_both_sides_judged", 500*q)
 	for _, cls := range []string{"Walk", "Ls", "LsRecursive", "ListDirTree", "SubDirectories", "Copy", "Zip", "Remove", "CleanDir"} {
-		r.Require("protected_entries_judged/"+cls, 40*q)
-		r.Require("must_process_entries_judged/"+cls, 100*q)
+		r.Require("protected_entries_judged/"+cls, 20*q)
+		r.Require("must_process_entries_judged/"+cls, 50*q)
 	}
 	r.Finish()
 }
